@@ -71,4 +71,99 @@ example : ∃ d, Built (fun _ => 1) d
     (Built.update ⟨some "c/p".toList, ⟨2, false, ["a".toList], []⟩⟩ Built.empty)
   exact ⟨_, Built.optimize (Built.update ⟨some "c/p".toList, ⟨1, true, [], ["c".toList]⟩⟩ (Built.merge h1 h2))⟩
 
+/-! ## User `package.use` lines: `package_use_splitter` and the one chunk `domain.pkg_use` makes of a line
+
+`splitUse` mirrors the generator in `package_use_splitter` (outer loop with `start_idx`, inner loop with `use_expand`
+and `buffer`), `lineChunk` is `split_negations(stable_unique(tokens))`.  The specification of a line is its tokens —
+each rewritten by the `NAME:` section it stands in — applied left to right (`ltr ∘ rewrite`). -/
+
+/-- **Section-wise rewriting**: tokens before the first `NAME:` are unchanged, every value of a section becomes
+`name_value` / `-name_value` / `-name_*`, headers vanish — whatever follows. -/
+theorem rewrite_sectionwise (pre vals rest : List Tok) (hdr : Tok) (hh : isSection hdr = true)
+    (hp : (pre.all fun t => !isSection t) = true) (hv : (vals.all fun t => !isSection t) = true) :
+    rewrite (pre ++ hdr :: (vals ++ rest))
+      = pre ++ vals.map (expandTok (sectionName hdr)) ++ rewriteFrom (some (sectionName hdr)) rest := by
+  unfold rewrite
+  rw [rewriteFrom_append none pre _ hp]
+  have : rewriteFrom none (hdr :: (vals ++ rest)) = rewriteFrom (some (sectionName hdr)) (vals ++ rest) := by
+    simp [rewriteFrom, hh]
+  rw [this, rewriteFrom_append _ vals rest hv]
+  have h1 : pre.map (inPart none) = pre := by simp [show inPart none = id from rfl]
+  have h2 : inPart (some (sectionName hdr)) = expandTok (sectionName hdr) := rfl
+  rw [h1, h2, List.append_assoc]
+
+/-- `a -b FOO: x -y -* BAR: z` -/
+example : rewrite ["a".toList, "-b".toList, "FOO:".toList, "x".toList, "-y".toList, "-*".toList, "BAR:".toList, "z".toList]
+    = ["a".toList, "-b".toList, "foo_x".toList, "-foo_y".toList, "-foo_*".toList, "bar_z".toList] := by decide
+
+/-- **What the splitter hands on** is the rewritten line minus the tokens a later `-*` of the same part overrides:
+in the plain head everything before the last `-*`, in a section the values before its last `-*` (look-ahead
+specification `splitSpec`; the code keeps a start index and a buffer). -/
+theorem splitter_eq_spec (valid : Tok → Bool) (toks out : List Tok) (h : splitUse valid toks = some out) :
+    out = splitSpec toks := by
+  have := plainLoop_spec valid toks [] out h
+  simpa [splitSpec] using this
+
+/-- **… and it rejects a line exactly when a (long form) token is not a valid flag name.** -/
+theorem splitter_accepts_iff (valid : Tok → Bool) (toks : List Tok) :
+    (splitUse valid toks).isSome = (checkedFrom none toks).all fun t => valid (lstripDash t) :=
+  plainLoop_isSome valid toks []
+
+/-- **No token is invented, duplicated or moved**: the output is a subsequence of the rewritten line. -/
+theorem splitter_output_sublist (valid : Tok → Bool) (toks out : List Tok) (h : splitUse valid toks = some out) :
+    out.Sublist (rewrite toks) := by
+  rw [splitter_eq_spec valid toks out h]
+  exact splitSpecFrom_sublist toks none
+
+/- Full statement (false of the model, see the counterexample):
+     ∀ valid toks out s x, splitUse valid toks = some out → (x ∈ ltr out s ↔ x ∈ ltr (rewrite toks) s) -/
+/-- **The dropped tokens do not matter**: applied left to right, the splitter's output and the whole rewritten line
+give the same set from every initial set — for every line whose section names do not start with `-`. -/
+theorem splitter_preserves_meaning_partial (valid : Tok → Bool) (toks out : List Tok) (hn : plainNames toks = true)
+    (h : splitUse valid toks = some out) (s : TSet) (x : Tok) :
+    x ∈ ltr out s ↔ x ∈ ltr (rewrite toks) s := by
+  rw [splitter_eq_spec valid toks out h]
+  exact render_congr _ _ _ (fun y => lastTok_splitSpecFrom toks none y (by simp) hn) s x
+
+/-- `-FOO: a -*`: the header makes `a` the *negative* `-foo_a`, which the splitter drops before `--foo_*` -/
+theorem splitter_preserves_meaning_counterexample :
+    let toks : List Tok := ["-FOO:".toList, "a".toList, "-*".toList]
+    splitUse (fun _ => true) toks = some ["--foo_*".toList] ∧
+    ltr ["--foo_*".toList] ["foo_a".toList] = ["foo_a".toList] ∧ ltr (rewrite toks) ["foo_a".toList] = [] := by decide
+
+/-- `x c -* y FOO: q p -* r BAR: s`: everything before the plain `-*` and the values before the section's `-*` go -/
+example : splitUse (fun _ => true) ["x".toList, "c".toList, "-*".toList, "y".toList, "FOO:".toList, "q".toList,
+      "p".toList, "-*".toList, "r".toList, "BAR:".toList, "s".toList]
+    = some ["-*".toList, "y".toList, "-foo_*".toList, "foo_r".toList, "bar_s".toList] := by decide
+
+/- Full statement (false of the model — open finding C11-inline-order-lost):
+     ∀ toks s x, x ∈ applyChunk s (lineChunk kid simple toks) ↔ x ∈ ltr toks s -/
+/-- **A line stored as one chunk**: `domain.pkg_use` keeps of a line only (negatives, positives).  Applying that
+chunk equals applying the tokens in order for every line in which no token switches a flag on that a later token
+switches off again (`orderFree`). -/
+theorem line_chunk_is_ltr_partial (kid : Nat) (simple : Bool) (toks : List Tok) (h : orderFree toks = true)
+    (s : TSet) (x : Tok) :
+    x ∈ applyChunk s (lineChunk kid simple toks) ↔ x ∈ ltr toks s := by
+  rw [mem_applyChunk, verdict_lineChunk, ← lastTok_eq_vLine toks x h]
+  unfold ltr
+  rw [mem_render, holds_iff]
+  rfl
+
+/-- `a -a`: read as a chunk (remove `a`, then add `a`) the flag stays on -/
+theorem line_chunk_counterexample :
+    applyChunk [] (lineChunk 0 true ["a".toList, "-a".toList]) = ["a".toList] ∧ ltr ["a".toList, "-a".toList] [] = [] := by
+  decide
+
+example : orderFree ["-*".toList, "y".toList, "-foo_*".toList, "foo_r".toList, "bar_s".toList] = true := by decide
+example : orderFree ["x".toList, "c".toList, "-*".toList, "y".toList] = false := by decide
+
+/-- **A user `package.use` line, end to end**: the chunk the domain stores for an accepted line whose output is
+order-free applies like the line's tokens, each rewritten by its section, applied in the order written. -/
+theorem package_use_line_partial (valid : Tok → Bool) (kid : Nat) (simple : Bool) (toks out : List Tok)
+    (h : splitUse valid toks = some out) (hn : plainNames toks = true) (hf : orderFree out = true)
+    (s : TSet) (x : Tok) :
+    x ∈ applyChunk s (lineChunk kid simple out) ↔ x ∈ ltr (rewrite toks) s := by
+  rw [line_chunk_is_ltr_partial kid simple out hf s x]
+  exact splitter_preserves_meaning_partial valid toks out hn h s x
+
 end Pkgcore.C11
